@@ -3,7 +3,7 @@
 From Coq Require Import List NArith ZArith Bool Arith Lia.
 From SK Require Import lib.Tok lib.LGraph lib.Mono.
 From SK Require model.C06_Model model.C11_Model.
-From SK Require Import model.C03_Model model.C05_Model proof.C05_Proof proof.C05_Glue proof.C05_Pipe proof.C05_Prep proof.C05_Comp proof.C05_Main proof.C05_Order proof.C05_Sub proof.C05_Set proof.C05_Result proof.C05_AllStrat proof.C05_PrepOrder proof.C05_Final proof.C05_Default.
+From SK Require Import model.C03_Model model.C05_Model proof.C05_Proof proof.C05_Glue proof.C05_Pipe proof.C05_Prep proof.C05_Comp proof.C05_Main proof.C05_Order proof.C05_Sub proof.C05_Set proof.C05_Result proof.C05_AllStrat proof.C05_PrepOrder proof.C05_Final proof.C05_Default proof.C05_Rewrite proof.C05_Capstone.
 From SK Require Import lib.C06_Spec proof.C06_Comp proof.C06_Main.
 Import ListNotations.
 
@@ -316,4 +316,33 @@ Proof.
               A1 A2 A3 A4 B1 B2 B3 B4 hx_same_r hx_tpl_same) as (P1 & _ & P3).
   split; [exact A2|]. split; [exact P1|]. split; [vm_compute; reflexivity|].
   apply P3; apply side_okb_c_ok; vm_compute; reflexivity.
+Qed.
+
+(** the monitor accepts the renumbered and reversed writing of the halogen-exchange case (pi = sz_pi on 1..4, sg = sz_sg) *)
+Example rewriting_monitor_nonvacuous :
+  rewriting_okb hx_host hx_tpl (hx_host_r2, hx_tpl_r2, [(1, 30); (2, 29); (3, 28); (4, 27); (30, 1); (29, 2); (28, 3); (27, 4)]%N,
+                                [(1, 3); (2, 1); (3, 2)]%N) = true.
+Proof. vm_compute. reflexivity. Qed.
+
+(** capstones on the halogen-exchange case: everything the theorems ask of the two writings is evaluated *)
+Definition hx_pi : list (N * N) := [(1, 30); (2, 29); (3, 28); (4, 27); (30, 1); (29, 2); (28, 3); (27, 4)]%N.
+Definition hx_sg : list (N * N) := [(1, 3); (2, 1); (3, 2)]%N.
+Example capstones_nonvacuous :
+  (exists p, prepare false true hx_tpl_r2 = Some p /\
+     forall T, In T (glued_of 1%N hx_host hx_p) -> exists T', In T' (glued_of 1%N hx_host_r2 p) /\ obs_eq (relabel (apply_map hx_pi) T) T') /\
+  (forall T, In T (glued_of 2%N hx_host (prep_default false hx_tpl)) ->
+     exists T', In T' (glued_of 2%N hx_host_r2 (prep_default false hx_tpl_r2)) /\ obs_eq (relabel (apply_map hx_pi) T) T').
+Proof.
+  assert (Hrw : rewriting_okb hx_host hx_tpl (hx_host_r2, hx_tpl_r2, hx_pi, hx_sg) = true) by (vm_compute; reflexivity).
+  split.
+  - destruct (pipeline_checked_implicit 1%N false hx_host hx_host_r2 hx_tpl hx_tpl_r2 hx_pi hx_sg hx_p (or_intror (or_introl eq_refl)) Hrw)
+      as (p & A & _ & _ & _ & E); try (vm_compute; reflexivity).
+    exists p. split; [exact A|].
+    assert (Ep : p = prep_of false hx_tpl_r2) by (unfold prep_of; rewrite A; reflexivity).
+    apply E. subst p. vm_compute. reflexivity.
+  - assert (HP : forall X : its, (forallb (fun q : N * inode => match i_hp (snd q) with None => true | Some [] => true | _ => false end) (gnodes X) = true) -> nohp X).
+    { intros X H k a I. rewrite forallb_forall in H. specialize (H _ I). simpl in H. destruct (i_hp a) as [[|x l]|]; [right; reflexivity | discriminate | left; reflexivity]. }
+    destruct (pipeline_checked_default 2%N false hx_host hx_host_r2 hx_tpl hx_tpl_r2 hx_pi hx_sg (or_intror (or_intror eq_refl)) Hrw) as (_ & _ & F & _);
+      try (vm_compute; reflexivity); try (apply HP; vm_compute; reflexivity).
+    exact F.
 Qed.
